@@ -247,6 +247,11 @@ static void child_main(const Case& c) {
     fprintf(R, "V %zu warnstr %s\n", k, hx::hex(A->GetWarningString()).c_str());
     line_view("warnlines", k, A->GetWarningStringLineCount(), [&](int i) { return std::string(A->GetWarningStringLine(i)); });
     fflush(R);
+    // accessors that walk the engine's stored entities must survive whatever the call left behind
+    fprintf(R, "ACC %zu begin\n", k); fflush(R);
+    { std::string ex2 = "-"; size_t nc = 0;
+      try { nc = A->GetComponentCount(); } catch (const std::exception& e) { ex2 = hx::hex(std::string(typeid(e).name()) + ": " + e.what()); } catch (...) { ex2 = hx::hex("unknown"); }
+      fprintf(R, "ACC %zu comps=%zu exc=%s\n", k, nc, ex2.c_str()); fflush(R); }
   }
   // reload + probe on the used instance, same on a new instance that is given only the survivors (switches, file names)
   A->begin_call();
